@@ -36,10 +36,13 @@ class Minimal(object):
 
 
 def outcome(fn, project):
-    try:
-        return [project(v) for v in fn()]
-    except Exception as exc:   # noqa
-        return "raised " + exc_name(exc)
+    """Results of fn() projected, or "raised <class>", or "nonterminating" (step watchdog of filllib)."""
+    st, val = fl.guarded(lambda: [project(v) for v in fn()], limit=150000, wall=60.0)
+    if st == "ok":
+        return val
+    if st == "hang":
+        return "nonterminating"
+    return "raised " + exc_name(val)
 
 
 def bufsizes(n_values):
